@@ -75,6 +75,8 @@ def decode_phases(est, zin, zout, train):
     """Which entry of the seasonal pattern was removed at each time point.  The pattern is not read from the
     transformer: it is the classical decomposition of the training series (statsmodels), first period."""
     from statsmodels.tsa.seasonal import seasonal_decompose
+    if hasattr(est, "passthrough"):       # optional passthrough around a deseasonalizer: the configured one
+        est = est.transformer
     mult = getattr(est, "model", "additive") == "multiplicative"
     s = np.asarray(seasonal_decompose(np.asarray(train.values, dtype=float), model="multiplicative" if mult else "additive",
                                       period=int(est.sp)).seasonal[:int(est.sp)], dtype=float)
@@ -124,7 +126,8 @@ def observe(entry, cfg, seed):
         return {"crash": type(e).__name__ + ": " + str(e)[:140] + " @ " + traceback.format_exc().splitlines()[-3].strip()[:100]}
 
 
-KIND = {"deseason_add": "deseason_add", "deseason_mul": "deseason_mul", "cond_deseason": "cond_deseason"}
+KIND = {"deseason_add": "deseason_add", "deseason_mul": "deseason_mul", "cond_deseason": "cond_deseason",
+        "optpass_deseason_reconfigured": "deseason_add"}
 
 
 def run(ctx):
